@@ -51,14 +51,17 @@ ADDTERM_TERM = P.verify(fn(
     'sfc_models.equation.Equation.AddTerm', name='sfc_models.equation.Equation.AddTerm[Term]',
     args=dict(self=Ref('Equation'), term=Ref('Term')),
     requires=[('inv', 'eq_inv(self)'),
-              ('term_inv', 'implies(term.IsBlob, term.Constant == 1.0)')],
+              ('term_inv', 'implies(term.IsBlob, term.Constant == 1.0)'),
+              # the equation owns copies: the caller's object is never an element (kept by `argument_never_stored`)
+              ('argument_not_an_element', 'all(self.TermList[j] is not term for j in range(0, len(self.TermList)))')],
     modifies=['len.R', 'el.R', 'f.Term.Constant', 'f.Term.Term', 'f.Term.IsSimple', 'f.Term.IsBlob', 'f.Term.owner_', 'f.Term.pos_', 'tyof'],
     loops=ADDTERM_LOOP, ghost_after=GHOST_APPEND,
     ensures=[('inv', 'eq_inv(self)'),
              ('den_additive', 'Den(self) == old(Den(self)) + old(TV(term))'),
              ('frame', 'terms_frame(self)'),
              ('same_list_object', 'self.TermList is old(self.TermList)'),
-             ('argument_untouched_unless_member', 'True')],
+             ('argument_never_stored', 'all(self.TermList[j] is not term for j in range(0, len(self.TermList)))'),
+             ('argument_object_untouched', 'term.Constant == old(term.Constant) and term.Term == old(term.Term) and term.IsBlob == old(term.IsBlob)')],
     raises=[RaisesSpec('LogicError', when='len(self.TermList) > 0 and term.IsBlob', iff=True, ensures=EXC_FRAME)],
 ))
 
